@@ -49,6 +49,10 @@ int ds_solo_active(void);
 unsigned long ds_solo_yields(void);
 unsigned long ds_my_steps(void);
 
+/* store-buffer introspection for oracles: a call that has returned may still have stores in flight (x86-TSO) */
+int ds_sb_pending(void);
+unsigned long ds_sb_empty_after(int engine_tid, unsigned long step);
+
 /* membarrier availability as seen by the library (QUERY answer) */
 extern int ds_membarrier_available;
 
